@@ -16,12 +16,24 @@ from __future__ import annotations
 
 import contextlib
 import importlib.machinery
+import importlib.util
 import os
+import shutil
+import sys
 from pathlib import Path
 
 EXT = importlib.machinery.EXTENSION_SUFFIXES[0]
 PKGUTIL = '__path__ = __import__("pkgutil").extend_path(__path__, __name__)\n'
 PTH = "c14.pth"
+
+
+def real_extension(name: str) -> str:
+    """File of the stdlib extension module `name` (family ext: copied as <name>/__init__.<abi>.so, so that CPython and an
+    inspecting Griffe can really import the compiled sub-package)."""
+    spec = importlib.util.find_spec(name)
+    if spec is None or not spec.origin or not spec.origin.endswith(EXT):
+        raise RuntimeError(f"no ABI-tagged stdlib extension module {name} in this interpreter")
+    return spec.origin
 
 
 def real_name(tok: str) -> str:
@@ -76,6 +88,8 @@ class Layout:
                 if rel[-1] == PTH:
                     line = str(self.paths[3]) if case.get("pthform", "abs") == "abs" else os.path.join("..", "p3")
                     target.write_text("# c14\n\n" + line + "\n")
+                elif rel[-1] == "__init__.so":
+                    shutil.copy(real_extension(rel[-2]), target)      # a real extension module: importable as <pkg>.<dir name>
                 elif rel[-1].endswith(".pyc"):
                     target.write_bytes(b"\x00\x00\x00\x00")
                 else:
@@ -242,12 +256,12 @@ def project(layout: Layout, top) -> list:
     return out
 
 
-def run_griffe(griffe, layout: Layout, listing: dict, request: str, *, find_stubs: bool = False, flip: bool = False, name: str = "pkg") -> dict:
+def run_griffe(griffe, layout: Layout, listing: dict, request: str, *, find_stubs: bool = False, flip: bool = False, name: str = "pkg", inspect: bool = False) -> dict:
     """One real load.  request: "name" | "dotted:<x.y>" | "path<i>" | "spath<i>" (str path) | "file<i>:<tok>"."""
     out = {"outcome": "ok", "tree": [], "json": None, "search_paths": None}
     with listing_order(layout, listing, flip) as log:
         try:
-            loader = griffe.GriffeLoader(search_paths=layout.search_paths(), allow_inspection=False)
+            loader = griffe.GriffeLoader(search_paths=layout.search_paths(), allow_inspection=inspect)
             if request == "name":
                 spec = name
             elif request.startswith("dotted:"):
@@ -286,6 +300,10 @@ def run_griffe(griffe, layout: Layout, listing: dict, request: str, *, find_stub
         except Exception as exc:  # noqa: BLE001
             out["outcome"] = "Other:" + type(exc).__name__
             out["detail"] = repr(exc)
+    if inspect:      # inspection imports for real: forget the modules of this layout
+        for k in [k for k in sys.modules if k == name or k.startswith(name + ".")]:
+            del sys.modules[k]
+        importlib.invalidate_caches()
     out["walked"] = len(log)
     out["not_injected"] = not_injected(listing, log, out["tree"])
     return out
